@@ -204,3 +204,258 @@ Example C11_ex_pool :
      ODeliver (k 2 (mkFrag 1 false [7])) 2; ODeliver (k 1 (mkFrag 0 true [8;7;6;5;4;3;2;1])) 2])
   = [PNone; PNone; PDone 17 true (map Some [1;2;3;4;5;6;7;8;7]); PDone 17 true (map Some [8;7;6;5;4;3;2;1;9])].
 Proof. vm_compute. reflexivity. Qed.
+
+(* ======================================================================
+   Release, recycling and retain (second part; model: Defrag/PoolModel.v,
+   lemmas: Defrag/PoolProofs.v).  Histories `list rop` are made of the three
+   public operations process_sliced_packet / return_buf / retain and have any
+   length; `retain` takes any predicate on (stream id, timestamp) -- the code's
+   `Fn(&Timestamp) -> bool` is the case of a predicate that ignores the id.
+   `stats p` is what the hook `verif_stats` returns; `pool_wf p` says that the
+   HashMap has one entry per key (holds for pool_new, kept by every operation).
+   ====================================================================== *)
+From EP Require Import Defrag.PoolModel Defrag.PoolProofs.
+
+(* Model.v's retain (cutoff on the timestamp) is an instance of retain_f *)
+Theorem C11_retain_instance : forall p c, retain p c = retain_f p (fun _ t => c <=? t).
+Proof. exact retain_is_retain_f. Qed.
+Print Assumptions C11_retain_instance.
+
+(* one entry per key: every reachable pool *)
+Theorem C11_wf_reachable : forall ops p, pool_wf p -> pool_wf (rrun p ops).
+Proof. exact rrun_wf. Qed.
+Print Assumptions C11_wf_reachable.
+
+(* ---- C11_release: a delivery that returns a payload found an entry, its add succeeded and
+   completed the buffer; exactly that entry leaves `active` (every other stream keeps its
+   entry, the number of entries drops by one), its section vector is pushed to
+   finished_section_bufs, its data vector IS the payload handed to the caller, and
+   finished_data_bufs is untouched (the caller may give the vector back with return_buf) ---- *)
+Theorem C11_release : forall p k ts ipn v4 pl p', pool_wf p -> process p k ts = (PDone ipn v4 pl, p') ->
+  exists b t b',
+    view (k_id k) p = Some (b, t) /\ add b (k_frag k) = AddOk b' /\ is_complete b' = true /\
+    ipn = k_ipn k /\ v4 = k_v4 k /\ pl = b_data b' /\
+    p_active p' = aremove (k_id k) (p_active p) /\
+    view (k_id k) p' = None /\
+    (forall id', id' <> k_id k -> view id' p' = view id' p) /\
+    len (p_active p') + 1 = len (p_active p) /\
+    p_fdata p' = p_fdata p /\
+    p_fsec p' = b_sections b' :: p_fsec p.
+Proof. exact release_complete. Qed.
+Print Assumptions C11_release.
+
+(* a failing FIRST add creates no entry and pushes both vectors taken for it (popped from the
+   free lists or freshly allocated), cleared, to the free lists: nothing is lost *)
+Theorem C11_release_first_err : forall p k ts v p', view (k_id k) p = None -> process p k ts = (PErr v, p') ->
+  p_active p' = p_active p /\
+  p_fdata p' = [] :: tl (p_fdata p) /\
+  p_fsec p' = [] :: tl (p_fsec p) /\
+  len (p_fdata p') = N.max 1 (len (p_fdata p)) /\
+  len (p_fsec p') = N.max 1 (len (p_fsec p)).
+Proof. exact release_first_err. Qed.
+Print Assumptions C11_release_first_err.
+
+(* an error on an existing entry changes nothing at all *)
+Theorem C11_release_err_occupied : forall p k ts v p' b t, view (k_id k) p = Some (b, t) ->
+  process p k ts = (PErr v, p') -> p' = p.
+Proof. exact release_err_occupied. Qed.
+Print Assumptions C11_release_err_occupied.
+
+(* the three numbers of verif_stats after ANY delivery, by answer (delivery_stats in PoolModel.v):
+   payload: (a-1, d, s+1), never on the Vacant path; nothing: Vacant (a+1, d-1, s-1) with 0-1 = 0
+   (fresh allocation), Occupied unchanged; error: Vacant (a, max 1 d, max 1 s), Occupied unchanged *)
+Theorem C11_delivery_stats : forall p k ts, pool_wf p ->
+  delivery_stats p k (fst (process p k ts)) (snd (process p k ts)).
+Proof. exact process_stats. Qed.
+Print Assumptions C11_delivery_stats.
+
+(* retain(f) removes exactly the streams for which f is false -- every stream's entry afterwards
+   is `retain_view` of its entry before -- and recycles both vectors of each evicted stream *)
+Theorem C11_retain_release : forall p f, pool_wf p ->
+  let p' := retain_f p f in
+  pool_wf p' /\
+  (forall id, view id p' = retain_view id f (view id p)) /\
+  p_active p' = filter (kept f) (p_active p) /\
+  p_fdata p' = map (fun e => b_data (fst (snd e))) (filter (fun e => negb (kept f e)) (p_active p)) ++ p_fdata p /\
+  p_fsec p' = map (fun e => b_sections (fst (snd e))) (filter (fun e => negb (kept f e)) (p_active p)) ++ p_fsec p /\
+  len (p_active p') + evicted p f = len (p_active p) /\
+  len (p_fdata p') = len (p_fdata p) + evicted p f /\
+  len (p_fsec p') = len (p_fsec p) + evicted p f.
+Proof. exact retain_release. Qed.
+Print Assumptions C11_retain_release.
+
+(* ---- conservation, every history from the empty pool: each data vector the pool allocated
+   (or the caller donated) is in an entry, in the free list or in the caller's hands; each section
+   vector is in an entry or in the free list.  `lrun` keeps the caller's ledger next to the pool. ---- *)
+Theorem C11_conservation : forall ops,
+  pool_wf (rrun pool_new ops) /\ balanced (rrun pool_new ops) (snd (lrun pool_new ledger0 ops)).
+Proof. exact conservation. Qed.
+Print Assumptions C11_conservation.
+
+(* the same from any balanced state *)
+Theorem C11_conservation_from : forall ops p l, pool_wf p -> balanced p l ->
+  pool_wf (fst (lrun p l ops)) /\ balanced (fst (lrun p l ops)) (snd (lrun p l ops)).
+Proof. exact lrun_balanced. Qed.
+Print Assumptions C11_conservation_from.
+
+(* the pool allocates a vector only on a Vacant entry whose free list is empty (one per list);
+   the only other source of vectors is a return_buf while the caller holds none of the pool's *)
+Theorem C11_alloc_only_when_empty : forall p l o,
+  (l_new_data (lstep p l o) <> l_new_data l ->
+     exists k ts, o = RDeliver k ts /\ vacant p k = true /\ p_fdata p = [] /\
+                  l_new_data (lstep p l o) = l_new_data l + 1) /\
+  (l_new_sec (lstep p l o) <> l_new_sec l ->
+     exists k ts, o = RDeliver k ts /\ vacant p k = true /\ p_fsec p = [] /\
+                  l_new_sec (lstep p l o) = l_new_sec l + 1) /\
+  (l_foreign (lstep p l o) <> l_foreign l ->
+     exists pl, o = RReturn pl /\ l_held l = 0 /\ l_foreign (lstep p l o) = l_foreign l + 1).
+Proof. exact alloc_only_when_empty. Qed.
+Print Assumptions C11_alloc_only_when_empty.
+
+(* active*2 + pooled + handed out changes, in every step, exactly by those allocations *)
+Theorem C11_total_step : forall p l o, pool_wf p ->
+  total (snd (rstep p o)) (lstep p l o) + l_new_data l + l_new_sec l + l_foreign l =
+  total p l + l_new_data (lstep p l o) + l_new_sec (lstep p l o) + l_foreign (lstep p l o).
+Proof. exact total_step. Qed.
+Print Assumptions C11_total_step.
+
+(* ---- cleared before use ----
+   the entry created by a first fragment is built from empty vectors whatever the free lists held *)
+Theorem C11_first_fragment_clean : forall p k ts, is_fragmenting (k_frag k) = true -> view (k_id k) p = None ->
+  view (k_id k) (snd (process p k ts)) =
+    match add (mkBuf (k_ipn k) [] [] None) (k_frag k) with
+    | AddOk b' => Some (b', ts)
+    | _ => None
+    end.
+Proof. exact first_fragment_clean. Qed.
+Print Assumptions C11_first_fragment_clean.
+
+(* ... and therefore no answer and no number of any history depends on the CONTENTS of the free
+   lists or of the vectors given to return_buf: two pools with the same entries and equally long
+   free lists, two histories that differ only in the returned vectors -> same answers, same stats *)
+Theorem C11_free_list_contents_irrelevant : forall ops1 ops2 p q, pool_sim p q -> Forall2 rop_sim ops1 ops2 ->
+  rtrace p ops1 = rtrace q ops2 /\ stats_trace p ops1 = stats_trace q ops2 /\
+  pool_sim (rrun p ops1) (rrun q ops2).
+Proof. exact free_list_contents_irrelevant. Qed.
+Print Assumptions C11_free_list_contents_irrelevant.
+
+(* ---- isolation with retain ----
+   general form: the answers for one id inside any history are those of the id's own deliveries
+   with every retain applied to its entry alone (sev_trace); likewise its entry at the end *)
+Theorem C11_isolation_retain : forall ops p id, pool_wf p ->
+  results_for id (rtrace p ops) = sev_trace id (view id p) (events_for id ops) /\
+  view id (rrun p ops) = sev_run id (view id p) (events_for id ops).
+Proof. exact isolation_retain. Qed.
+Print Assumptions C11_isolation_retain.
+
+(* retain calls that keep the observed stream (whenever they run: f id t = true for the entry's
+   current timestamp, or there is no entry) do not change its answers: they are the answers
+   the stream's deliveries get alone -- C11_isolation extended to retain *)
+Theorem C11_isolation_keep : forall ops p id, pool_wf p -> keeps id (view id p) (events_for id ops) ->
+  results_for id (rtrace p ops) = stream_trace (view id p) (deliveries (events_for id ops)).
+Proof. exact isolation_keep. Qed.
+Print Assumptions C11_isolation_keep.
+
+(* sufficient: every predicate used keeps the id whatever its timestamp *)
+Theorem C11_isolation_keep_always : forall ops p id, pool_wf p ->
+  (forall f, In (RRetain f) ops -> forall t, f id t = true) ->
+  results_for id (rtrace p ops) = stream_trace (view id p) (deliveries (events_for id ops)).
+Proof. exact isolation_keep_always. Qed.
+Print Assumptions C11_isolation_keep_always.
+
+(* the histories of C11_isolation are the histories without retain *)
+Theorem C11_rtrace_embed : forall ops p,
+  rtrace p (map rop_of ops) = pool_trace p ops /\
+  forall id, deliveries (events_for id (map rop_of ops)) = for_id id ops.
+Proof. exact embed_both. Qed.
+Print Assumptions C11_rtrace_embed.
+
+(* ---- eviction of a partially received stream: its later fragments start a new stream.  The
+   answers after the eviction are sev_trace from NO entry over the later events: a function of
+   the later events alone ---- *)
+Theorem C11_evict_restart : forall ops1 f ops2 p id b t, pool_wf p ->
+  view id (rrun p ops1) = Some (b, t) -> f id t = false ->
+  results_for id (rtrace p (ops1 ++ RRetain f :: ops2)) =
+    results_for id (rtrace p ops1) ++ sev_trace id None (events_for id ops2).
+Proof. exact evict_partial. Qed.
+Print Assumptions C11_evict_restart.
+
+(* ... so nothing received before the eviction can appear in a later answer: two pools, two
+   different pasts of the stream, both evicted, the same later history -> the same later answers *)
+Theorem C11_evict_no_leak : forall ops1 ops1' f f' ops2 p p' id, pool_wf p -> pool_wf p' ->
+  retain_view id f (view id (rrun p ops1)) = None ->
+  retain_view id f' (view id (rrun p' ops1')) = None ->
+  skipn (length (results_for id (rtrace p ops1))) (results_for id (rtrace p (ops1 ++ RRetain f :: ops2))) =
+  skipn (length (results_for id (rtrace p' ops1'))) (results_for id (rtrace p' (ops1' ++ RRetain f' :: ops2))).
+Proof. exact evict_no_leak. Qed.
+Print Assumptions C11_evict_no_leak.
+
+(* ... and the rest of the evicted datagram never completes on its own: as long as the fragments
+   delivered AFTER the eviction do not cover P, every answer is `nothing` *)
+Theorem C11_evicted_rest_never_completes : forall P, len P <= 65535 -> forall ops1 f ops2 p id, pool_wf p ->
+  retain_view id f (view id (rrun p ops1)) = None ->
+  (forall g, In (RRetain g) ops2 -> forall t, g id t = true) ->
+  let ks := deliveries (events_for id ops2) in
+  (forall kt, In kt ks -> pkt_ok P kt) ->
+  (forall j, (j <= length ks)%nat -> ~ Covered P (firstn j (frags_of ks))) ->
+  results_for id (rtrace p (ops1 ++ RRetain f :: ops2)) =
+    results_for id (rtrace p ops1) ++ map (fun _ => PNone) ks.
+Proof. exact evicted_rest_never_completes. Qed.
+Print Assumptions C11_evicted_rest_never_completes.
+
+(* C11_pool_no_leak for histories with retain *)
+Theorem C11_pool_no_leak_retain : forall ops id,
+  Forall res_ok (results_for id (rtrace pool_new ops)).
+Proof. exact pool_no_leak_retain. Qed.
+Print Assumptions C11_pool_no_leak_retain.
+
+(* ---- non-vacuity of the second part ---- *)
+Definition exK (id : N) (f : frag) : pkt := mkPkt [id] true 17 f.
+Definition exA : frag := mkFrag 0 true [1;2;3;4;5;6;7;8].
+Definition exZ : frag := mkFrag 1 false [9].
+(* stream 1 half received, stream 2 complete, a failing first fragment for stream 3, the payload
+   returned, stream 1 evicted by a predicate on the timestamp, its late fragment starts afresh *)
+Definition exHist : list rop :=
+  [RDeliver (exK 1 exA) 1; RDeliver (exK 2 exA) 2; RDeliver (exK 2 exZ) 3;
+   RDeliver (exK 3 (mkFrag 0 true [1;2;3])) 4; RReturn [Some 1; Some 2]; RRetain (fun _ t => 2 <=? t);
+   RDeliver (exK 1 exZ) 5; RDeliver (exK 1 exA) 6].
+
+Example C11_ex_hist_answers : map snd (rtrace pool_new exHist) =
+  [PNone; PNone; PDone 17 true (map Some [1;2;3;4;5;6;7;8;9]); PErr (VUnaligned 0 3); PNone;
+   PDone 17 true (map Some [1;2;3;4;5;6;7;8;9])].
+Proof. vm_compute. reflexivity. Qed.
+
+Example C11_ex_hist_stats : stats_trace pool_new exHist =
+  [(1,0,0); (2,0,0); (1,0,1); (1,1,1); (1,2,1); (0,3,2); (1,2,1); (0,2,2)].
+Proof. vm_compute. reflexivity. Qed.
+
+Example C11_ex_hist_ledger : snd (lrun pool_new ledger0 exHist) = mkLedger 1 3 2 0.
+Proof. vm_compute. reflexivity. Qed.
+
+(* hypotheses of C11_release / C11_release_first_err / C11_evict_restart are satisfiable *)
+Example C11_ex_release_hyp :
+  let p := rrun pool_new (firstn 2 exHist) in
+  pool_wf p /\ fst (process p (exK 2 exZ) 3) = PDone 17 true (map Some [1;2;3;4;5;6;7;8;9]) /\
+  view [3] p = None /\ fst (process p (exK 3 (mkFrag 0 true [1;2;3])) 4) = PErr (VUnaligned 0 3).
+Proof.
+  split; [apply C11_wf_reachable; constructor|]. vm_compute. repeat split; reflexivity.
+Qed.
+
+Example C11_ex_evict_hyp :
+  exists b, view [1] (rrun pool_new (firstn 5 exHist)) = Some (b, 1) /\ (2 <=? 1) = false /\
+  keeps [2] (view [2] pool_new) (events_for [2] exHist) /\ ~ keeps [1] (view [1] pool_new) (events_for [1] exHist).
+Proof.
+  eexists. split; [vm_compute; reflexivity|]. split; [reflexivity|]. split.
+  - vm_compute. tauto.
+  - vm_compute. intros [H _]. discriminate H.
+Qed.
+
+(* two histories that differ only in the returned vector, two pools that differ only in the
+   contents of the free lists *)
+Example C11_ex_sim :
+  pool_sim (mkPool [] [[Some 255; Some 254]] [[mkRange 0 8]]) (mkPool [] [[]] [[]]) /\
+  Forall2 rop_sim [RReturn [Some 1]; RRetain (fun _ t => 2 <=? t)] [RReturn []; RRetain (fun _ t => negb (t <? 2))].
+Proof.
+  split; [vm_compute; auto|]. constructor; [constructor|]. constructor; [|constructor].
+  constructor. intros id t. destruct (N.leb_spec 2 t), (N.ltb_spec t 2); try reflexivity; lia.
+Qed.
